@@ -239,7 +239,7 @@ func c15Run(c *ev.Ctx) {
 					c.Distinct(1)
 					c.Add("writer_fault_points", 1)
 					if sig, what := judgeC15W(kk, res, sink, golden); sig != "" {
-						c.Confirm(&ev.Finding{Sig: sig, What: fmt.Sprintf("%s; %+v", what, kk), Case: kk}, func() *ev.Finding {
+						c.ConfirmFree(&ev.Finding{Sig: sig, What: fmt.Sprintf("%s; %+v", what, kk), Case: kk}, conc != 1, func() *ev.Finding {
 							s2 := &faultSink{failAt: kk.FailAt, partial: kk.Partial}
 							r2 := runC15W(kk, s2)
 							if sg, _ := judgeC15W(kk, r2, s2, golden); sg != "" {
@@ -286,7 +286,7 @@ func c15Run(c *ev.Ctx) {
 				c.Add("reader_fragmentation_runs", 1)
 				if res.panic != "" || res.clean != ref0.clean || !bytes.Equal(res.out, ref0.out) {
 					sig := fmt.Sprintf("decoding depends on how the source fragments its reads (%s,%s); legacy=%v", fragKinds[fragPatterns()[f][0]], fragKinds[fragPatterns()[f][1]], o.Legacy)
-					c.Confirm(&ev.Finding{Sig: sig, What: fmt.Sprintf("err=%v panic=%s; %+v", res.err, res.panic, k), Case: k}, func() *ev.Finding {
+					c.ConfirmFree(&ev.Finding{Sig: sig, What: fmt.Sprintf("err=%v panic=%s; %+v", res.err, res.panic, k), Case: k}, rc.Conc > 1, func() *ev.Finding {
 						r2, _ := runC15R(k, frame)
 						if r2.panic != "" || r2.clean != ref0.clean || !bytes.Equal(r2.out, ref0.out) {
 							return &ev.Finding{Sig: sig}
@@ -330,7 +330,7 @@ func c15Run(c *ev.Ctx) {
 							sig = "bytes delivered before the source failure are not a prefix of the content; " + path
 						}
 						if sig != "" {
-							c.Confirm(&ev.Finding{Sig: sig, What: fmt.Sprintf("err=%v; %+v", res.err, k), Case: k}, func() *ev.Finding {
+							c.ConfirmFree(&ev.Finding{Sig: sig, What: fmt.Sprintf("err=%v; %+v", res.err, k), Case: k}, rc.Conc > 1, func() *ev.Finding {
 								r2, _ := runC15R(k, frame)
 								if r2.clean || !errors.Is(r2.err, errInjected) || r2.panic != "" || !bytes.HasPrefix(input, r2.out) {
 									return &ev.Finding{Sig: sig}
